@@ -486,7 +486,7 @@ func main() {
 		n++
 	}
 	g := r.Rng
-	ncases := r.N(200, 4000)
+	ncases := r.N(150, 4000)
 	for i := 0; i < ncases && !propFound && tieFails < 6; i++ {
 		c := genCase(g.Fork(), i)
 		r.Eval("generated", strings.Join(c.Lines, "\n"))
